@@ -9,6 +9,7 @@ import (
 	"fmt"
 	"go/ast"
 	"go/token"
+	"sort"
 	"strings"
 )
 
@@ -22,11 +23,12 @@ type appendSite struct {
 }
 
 type appendFn struct {
-	p      *pkgSrc
-	fd     *ast.FuncDecl
-	recv   string
-	isNode bool // methods in mpt_node.go: the receiver itself is a node
-	params map[string]bool
+	p       *pkgSrc
+	fd      *ast.FuncDecl
+	recv    string
+	isNode  bool // methods in mpt_node.go: the receiver itself is a node
+	params  map[string]bool
+	results map[string]bool
 }
 
 func (af *appendFn) lastDef(name string, pos token.Pos) (def ast.Expr, isVarDecl bool) {
@@ -48,6 +50,11 @@ func (af *appendFn) lastDef(name string, pos token.Pos) (def ast.Expr, isVarDecl
 								if a, ok := ce.Args[0].(*ast.Ident); ok && a.Name == name {
 									continue
 								}
+							}
+						}
+						if se, ok := x.Rhs[i].(*ast.SliceExpr); ok && x.Tok != token.DEFINE { // x = x[:n]: the same backing array
+							if a, ok := se.X.(*ast.Ident); ok && a.Name == name {
+								continue
 							}
 						}
 						def, isVarDecl = x.Rhs[i], false
@@ -111,6 +118,14 @@ func (af *appendFn) classify(e ast.Expr, pos token.Pos, depth int) string {
 					return af.classify(x.Args[0], pos, depth+1)
 				}
 			}
+		case *ast.SelectorExpr: // pkg.F(args): what it returns may be (a grown version of) a slice handed in
+			if id, ok := f.X.(*ast.Ident); ok && id.Name != af.recv && id.Obj == nil {
+				for _, a := range x.Args {
+					if c := af.classify(a, pos, depth+1); c == "param" || c == "derefParam" {
+						return "param"
+					}
+				}
+			}
 		case *ast.ArrayType: // []byte(x) conversion copies for strings; for slices it aliases: look inside
 			if len(x.Args) == 1 {
 				if _, isLit := x.Args[0].(*ast.BasicLit); isLit {
@@ -138,6 +153,9 @@ func (af *appendFn) classify(e ast.Expr, pos token.Pos, depth int) string {
 		if af.params[x.Name] {
 			return "param"
 		}
+		if af.results[x.Name] {
+			return "freshLocal" // a named result: nil on entry
+		}
 		return "unknown"
 	}
 	return "unknown"
@@ -145,22 +163,27 @@ func (af *appendFn) classify(e ast.Expr, pos token.Pos, depth int) string {
 
 func genAppendFacts(util *pkgSrc) string {
 	var sites []appendSite
-	for _, fn := range []string{"merkle_patricia_trie.go", "mpt_node.go"} {
+	// every non-test file of the package: the table does not depend on which file a function stands in
+	for _, fn := range util.names {
 		f := util.files[fn]
-		if f == nil {
-			sites = append(sites, appendSite{id: fn + ":<file not found>:0", file: fn, cls: "unknown"})
-			continue
-		}
 		for _, d := range f.Decls {
 			fd, ok := d.(*ast.FuncDecl)
 			if !ok || fd.Body == nil {
 				continue
 			}
 			rn, rt := recvOf(fd)
-			af := &appendFn{p: util, fd: fd, recv: rn, isNode: fn == "mpt_node.go", params: map[string]bool{}}
+			af := &appendFn{p: util, fd: fd, recv: rn, isNode: strings.HasSuffix(rt, "Node"), params: map[string]bool{}} // methods of the node types
 			for _, pf := range fd.Type.Params.List {
 				for _, n := range pf.Names {
 					af.params[n.Name] = true
+				}
+			}
+			af.results = map[string]bool{}
+			if fd.Type.Results != nil {
+				for _, rf := range fd.Type.Results.List {
+					for _, n := range rf.Names {
+						af.results[n.Name] = true
+					}
 				}
 			}
 			fname := fd.Name.Name
@@ -183,7 +206,7 @@ func genAppendFacts(util *pkgSrc) string {
 			record := func(ce *ast.CallExpr, assignedTo ast.Expr) {
 				ord++
 				s := appendSite{file: fn, fn: fname, ordinal: ord, line: util.line(ce)}
-				s.id = fmt.Sprintf("%s:%s:%d", fn, fname, ord)
+				s.id = fmt.Sprintf("%s:%d", fname, ord)
 				if len(ce.Args) == 0 {
 					s.cls = "unknown"
 				} else {
@@ -226,6 +249,12 @@ func genAppendFacts(util *pkgSrc) string {
 			visit(fd.Body, nil)
 		}
 	}
+	sort.SliceStable(sites, func(i, j int) bool {
+		if sites[i].fn != sites[j].fn {
+			return sites[i].fn < sites[j].fn
+		}
+		return sites[i].ordinal < sites[j].ordinal
+	})
 	var sb strings.Builder
 	sb.WriteString(genHeader)
 	sb.WriteString(`namespace Verif.Gen.AppendFacts
@@ -241,7 +270,7 @@ inductive Target
   | unknown
   deriving DecidableEq, Repr
 
-/-- one append( call; identity = file:function:ordinal -/
+/-- one append( call; identity = function:ordinal -/
 structure Site where
   id : String
   file : String
